@@ -313,7 +313,13 @@ class Inotify:
         def _recursive_simulate(src_path: bytes) -> list[InotifyEvent]:
             events = []
             for root, dirnames, filenames in os.walk(src_path):
-                for dirname in dirnames:
+                for dirname in list(dirnames):
+                    if not self._follow_symlink and os.path.islink(os.path.join(root, dirname)):
+                        # os.walk() lists a link to a directory among the directories: it is
+                        # neither watched nor reported as a directory (the kernel reports links as files).
+                        dirnames.remove(dirname)
+                        filenames.append(dirname)
+                        continue
                     with contextlib.suppress(OSError):
                         full_path = os.path.join(root, dirname)
                         wd_dir = self._add_watch(full_path, self._event_mask)
